@@ -58,9 +58,9 @@ type wres struct {
 	Alloc    uint64 `json:"alloc"`
 	Consumed int    `json:"consumed"`
 	Micros   int64  `json:"micros"`
-	Decomp   int32  `json:"decomp,omitempty"` // codec code when a decompressor ran during the decode
+	Decomp   int32  `json:"decomp,omitempty"`    // codec code when a decompressor ran during the decode
 	InDecomp bool   `json:"in_decomp,omitempty"` // parent only: the dead worker's crash report shows decompressor frames
-	Stderr   string `json:"stderr,omitempty"` // parent only: tail of the dead worker's stderr
+	Stderr   string `json:"stderr,omitempty"`    // parent only: tail of the dead worker's stderr
 }
 
 // decodeResult is what one in-process decode reports (shared with the fuzz target).
@@ -222,16 +222,29 @@ func TestWorker(t *testing.T) {
 // ---------------------------------------------------------------------------
 // parent side
 
+// tailBuf keeps the head and the tail of what a worker prints: a Go crash
+// report starts with its cause ("fatal error: ...") and may go on for many
+// goroutines.
 type tailBuf struct {
-	mu sync.Mutex
-	b  []byte
+	mu   sync.Mutex
+	head []byte
+	tail []byte
 }
 
 func (t *tailBuf) Write(p []byte) (int, error) {
 	t.mu.Lock()
-	t.b = append(t.b, p...)
-	if len(t.b) > 16384 {
-		t.b = append([]byte{}, t.b[len(t.b)-8192:]...)
+	if room := 8192 - len(t.head); room > 0 {
+		k := len(p)
+		if k > room {
+			k = room
+		}
+		t.head = append(t.head, p[:k]...)
+		t.tail = append(t.tail, p[k:]...)
+	} else {
+		t.tail = append(t.tail, p...)
+	}
+	if len(t.tail) > 16384 {
+		t.tail = append([]byte{}, t.tail[len(t.tail)-8192:]...)
 	}
 	t.mu.Unlock()
 	return len(p), nil
@@ -240,7 +253,10 @@ func (t *tailBuf) Write(p []byte) (int, error) {
 func (t *tailBuf) String() string {
 	t.mu.Lock()
 	defer t.mu.Unlock()
-	return string(t.b)
+	if len(t.tail) == 0 {
+		return string(t.head)
+	}
+	return string(t.head) + "\n[...]\n" + string(t.tail)
 }
 
 type wproc struct {
@@ -475,4 +491,3 @@ func deathClass(r wres) string {
 	}
 	return "exit"
 }
-
